@@ -78,6 +78,44 @@ type Language struct {
 	Users []User `gorm:"many2many:user_languages"`
 }
 
+// owners fan: six different owner models with a has-many to ONE child model; their first uses write
+// the child's relationship map concurrently
+type Kid struct {
+	ID     int64 `gorm:"primaryKey"`
+	Own1ID *int64
+	Own2ID *int64
+	Own3ID *int64
+	Own4ID *int64
+	Own5ID *int64
+	Own6ID *int64
+	Name   string
+}
+
+type Own1 struct {
+	ID   int64 `gorm:"primaryKey"`
+	Kids []Kid
+}
+type Own2 struct {
+	ID   int64 `gorm:"primaryKey"`
+	Kids []Kid
+}
+type Own3 struct {
+	ID   int64 `gorm:"primaryKey"`
+	Kids []Kid
+}
+type Own4 struct {
+	ID   int64 `gorm:"primaryKey"`
+	Kids []Kid
+}
+type Own5 struct {
+	ID   int64 `gorm:"primaryKey"`
+	Kids []Kid
+}
+type Own6 struct {
+	ID   int64 `gorm:"primaryKey"`
+	Kids []Kid
+}
+
 type Solo struct {
 	ID     int64 `gorm:"primaryKey"`
 	V      string
@@ -144,8 +182,8 @@ type Reg struct {
 	V  int64
 }
 
-var allModels = []interface{}{&Company{}, &User{}, &Pet{}, &Toy{}, &Language{}, &Solo{}, &Solo2{}, &Reg{}}
-var allTables = []string{"companies", "users", "pets", "toys", "languages", "user_languages", "solos", "solo2", "regs"}
+var allModels = []interface{}{&Company{}, &User{}, &Pet{}, &Toy{}, &Language{}, &Solo{}, &Solo2{}, &Reg{}, &Kid{}, &Own1{}, &Own2{}, &Own3{}, &Own4{}, &Own5{}, &Own6{}}
+var allTables = []string{"companies", "users", "pets", "toys", "languages", "user_languages", "solos", "solo2", "regs", "kids", "own1", "own2", "own3", "own4", "own5", "own6"}
 
 // schemaSQL is produced once per child by a throw-away handle, so that the handles under
 // test never run AutoMigrate (their schema cache must be cold when the goroutines start).
@@ -306,6 +344,24 @@ var steps = []step{
 	{"CreateSolo", func(db *gorm.DB, b int64) string {
 		res := db.Create(&[]Solo{{ID: b + 1, V: "a", N: 1, Secret: EncStr(fmt.Sprint("s", b+1))}, {ID: b + 2, V: "b", N: 2, Secret: EncStr(fmt.Sprint("s", b+2))}})
 		return fmt.Sprintf("%s rows=%d", fmtErr(res.Error), res.RowsAffected)
+	}},
+	{"Own1", func(db *gorm.DB, b int64) string {
+		return ownStep(db, b, &Own1{ID: b + 1, Kids: []Kid{{ID: b + 11, Name: "k1"}}}, &[]Own1{})
+	}},
+	{"Own2", func(db *gorm.DB, b int64) string {
+		return ownStep(db, b, &Own2{ID: b + 2, Kids: []Kid{{ID: b + 12, Name: "k2"}}}, &[]Own2{})
+	}},
+	{"Own3", func(db *gorm.DB, b int64) string {
+		return ownStep(db, b, &Own3{ID: b + 3, Kids: []Kid{{ID: b + 13, Name: "k3"}}}, &[]Own3{})
+	}},
+	{"Own4", func(db *gorm.DB, b int64) string {
+		return ownStep(db, b, &Own4{ID: b + 4, Kids: []Kid{{ID: b + 14, Name: "k4"}}}, &[]Own4{})
+	}},
+	{"Own5", func(db *gorm.DB, b int64) string {
+		return ownStep(db, b, &Own5{ID: b + 5, Kids: []Kid{{ID: b + 15, Name: "k5"}}}, &[]Own5{})
+	}},
+	{"Own6", func(db *gorm.DB, b int64) string {
+		return ownStep(db, b, &Own6{ID: b + 6, Kids: []Kid{{ID: b + 16, Name: "k6"}}}, &[]Own6{})
 	}},
 	{"QueryMissingTable", func(db *gorm.DB, b int64) string {
 		// the same failing text from every goroutine: in prepared-statement mode they meet in one
@@ -477,6 +533,28 @@ var steps = []step{
 	}},
 }
 
+// ownStep creates one owner with one kid (upsert: the step may repeat) and reads the goroutine's owners back
+// with their kids.
+func ownStep(db *gorm.DB, b int64, rec interface{}, out interface{}) string {
+	res := db.Clauses(clause.OnConflict{DoNothing: true}).Create(rec)
+	if res.Error != nil {
+		return fmtErr(res.Error)
+	}
+	err := db.Preload("Kids").Where("id >= ? AND id < ?", b, b+1000).Order("id").Find(out).Error
+	desc := fmtErr(err)
+	sl := reflect.ValueOf(out).Elem()
+	for i := 0; i < sl.Len(); i++ {
+		o := sl.Index(i)
+		desc += fmt.Sprintf(" {%d kids:", o.FieldByName("ID").Int())
+		kids := o.FieldByName("Kids")
+		for j := 0; j < kids.Len(); j++ {
+			desc += fmt.Sprintf(" %d/%s", kids.Index(j).FieldByName("ID").Int(), kids.Index(j).FieldByName("Name").String())
+		}
+		desc += "}"
+	}
+	return desc
+}
+
 func genProgram(r *core.Rand, first int) []int {
 	n := r.Range(4, 9)
 	p := []int{first}
@@ -564,6 +642,17 @@ func run(c *core.Ctx) {
 					}
 				}
 			}
+		}
+	}
+	if c.Case%5 == 2 {
+		// owners fan: the goroutines' first statements use different owner models of one child model
+		idx := map[string]int{}
+		for i, st := range steps {
+			idx[st.name] = i
+		}
+		for g := range progs {
+			first := idx[fmt.Sprintf("Own%d", (g+r.Intn(2))%6+1)]
+			progs[g] = append([]int{first, idx[fmt.Sprintf("Own%d", r.Intn(6)+1)]}, progs[g][2:]...)
 		}
 	}
 	hot := c.Case%5 == 3
@@ -923,7 +1012,7 @@ func postChild(dir string, batch int, res *core.Result) {
 var Engine = &core.Engine{
 	ID:    "C07",
 	Level: "exploration",
-	Rule: "each case: G in {2,4,8,16(,32)} goroutines released from a barrier on one *gorm.DB whose schema cache is cold (fresh Open on a pre-created SQLite file; every 7th case warm), each running a seeded program of 4..9 calls out of 37 (one of them a statement that fails for every goroutine alike; every 5th case all goroutines start with it) (chains derived from two shared reusable handles that carry three joins / three orders, reads of a model whose field type is its own serializer, graph creates through every relation kind of a mutually related model cluster plus unrelated models, First/Find/Preload/Joins, updates, deletes incl. soft delete and Select(assoc), nested and failing transactions, association mode, FirstOrCreate, Scan, FindInBatches) on its own key range; first statements touch different models of the cluster (every 5th case instead: all goroutines create and repeatedly read rows of the self-serializing model); PrepareStmt on/off; a hook yields right after a half-built schema became visible (2 of 3 cases); " +
+	Rule: "each case: G in {2,4,8,16(,32)} goroutines released from a barrier on one *gorm.DB whose schema cache is cold (fresh Open on a pre-created SQLite file; every 7th case warm), each running a seeded program of 4..9 calls out of 37 (one of them a statement that fails for every goroutine alike; every 5th case all goroutines start with it) (chains derived from two shared reusable handles that carry three joins / three orders, reads of a model whose field type is its own serializer, graph creates through every relation kind of a mutually related model cluster plus unrelated models, First/Find/Preload/Joins, updates, deletes incl. soft delete and Select(assoc), nested and failing transactions, association mode, FirstOrCreate, Scan, FindInBatches) on its own key range; first statements touch different models of the cluster (every 5th case instead: all goroutines create and repeatedly read rows of the self-serializing model; another 5th: the first statements use six different owner models that all have a has-many to one child model); PrepareStmt on/off; a hook yields right after a half-built schema became visible (2 of 3 cases); " +
 		"monitors: race detector (log parsed), per-call and final-state equality with the serial run of the same programs, porcupine-checked register histories on shared rows (every 2nd case); distinct = (G, PrepareStmt, warm, multiset of first statements, schemas parsed during the run); every run is non-trivial (at least 2 goroutines share the handle)",
 	Assumptions: []string{
 		"goroutines that have not returned after 90 s are a violation only if the goroutine dump shows every one of them blocked on a channel / lock inside gorm and none running; otherwise the case is inconclusive",
